@@ -123,6 +123,9 @@ def run_native(prop, tier, driver, plan, level, rule, assumptions, nops=0, nmode
         if st["variant"] not in bins:
             bins[st["variant"]] = C.ensure_driver(st["variant"], driver)
     corpus_args = ["--corpus", corpus_file()] if use_corpus else []
+    known0 = C.known_keys(prop)
+    if known0:
+        corpus_args = corpus_args + ["--tolerate", ",".join(sorted(known0))]
     stages, fails, problems = [], [], []
     total = 0
     scale = float(os.environ.get("VERIF_SCALE", "1"))
@@ -212,6 +215,18 @@ def run_native(prop, tier, driver, plan, level, rule, assumptions, nops=0, nmode
         lines.append("  class=%s seed=%d key=%s msg=%s" % (rec["class"], rec["seed"], key, str(rec.get("msg"))[:300]))
         violations += 1
 
+    # every listed finding of this property is announced (with how often this run met it); the drivers tolerate
+    # them (case abandoned, run continued), so a recorded finding does not cost coverage
+    seen = {}
+    for st in stages:
+        for k, v in (st["summary"].get("probes") or {}).items():
+            if k.startswith("tolerated_") and v:
+                e = known.match(k[len("tolerated_"):])
+                if e is not None:
+                    seen[e["key"]] = seen.get(e["key"], 0) + v
+    lines = [l for l in lines if not l.startswith("KNOWN-FINDING")]
+    for key, e in sorted(known.items()):
+        lines.insert(0, "KNOWN-FINDING: property=%s %s [key %s; met %d time(s) in this run]" % (prop, e.get("what", key), key, seen.get(key, 0) + sum(g["count"] for kk, g in grouped.items() if known.match(kk) is e)))
     wall = time.time() - t0
     cov = {
         "evaluations": int(total),
